@@ -655,6 +655,9 @@ func (c *Ctx) decodeStore(f *FA, x *bvCtx, t *recTable, fk string, val ssa.Value
 				if _, isPhi := root.(*ssa.Phi); isPhi {
 					isParamOrPhi = true
 				}
+				if rs, isSlice := root.(*ssa.Slice); isSlice && isOffsetCursor(rs) {
+					isParamOrPhi = true // the element at an integer offset that walks the input
+				}
 				if !isParamOrPhi {
 					t.addUnresolved(fmt.Sprintf("%s: copied from %s which is not the input cursor (%s)", fk, root.Name(), pos))
 					return
